@@ -138,7 +138,21 @@ func (env *Env) lookupType(name string) (types.Type, string) {
 	obj := pkg.Scope().Lookup(name)
 	tn, ok := obj.(*types.TypeName)
 	if !ok {
-		cfail("unknown type %s", name)
+		// a spec function declared in another package names its parameter types unqualified: take the type if exactly one
+		// package of the module declares it
+		var cands []*types.TypeName
+		for path, sp := range vc.w.SSAPkgs {
+			if !strings.HasPrefix(path, modulePath) {
+				continue
+			}
+			if c, ok := sp.Pkg.Scope().Lookup(name).(*types.TypeName); ok {
+				cands = append(cands, c)
+			}
+		}
+		if len(cands) != 1 {
+			cfail("unknown type %s", name)
+		}
+		tn = cands[0]
 	}
 	var t types.Type = tn.Type()
 	if ptr {
@@ -547,6 +561,12 @@ func (env *Env) call(x *ECall) Val {
 			}
 		}
 		return n.c(x.Args[0])
+	case "ndone":
+		// number of times loop N (source order) was left through its head so far (range exhausted / condition false)
+		if len(x.Args) != 1 {
+			cfail("ndone() takes a loop ordinal")
+		}
+		return mathInt(vc.heapGet(env.st, "N_loopdone_"+x.Args[0].String(), "Int"))
 	case "nsends":
 		// number of channel sends executed so far by the function under contract itself
 		return mathInt(vc.heapGet(env.st, "N_send", "Int"))
@@ -568,7 +588,20 @@ func (env *Env) call(x *ECall) Val {
 		if its == nil {
 			cfail("iter() outside a loop")
 		}
-		return env.at(its).c(x.Args[0])
+		// locals declared outside the loop (their cell already existed at the loop head) take their value at the start of
+		// the iteration; locals declared inside the body keep their current value
+		n := env.at(its)
+		n.vars = make(map[string]Val, len(env.vars))
+		for k, v := range env.vars {
+			n.vars[k] = v
+		}
+		for name, a := range vc.localCells(env.st) {
+			if hv, ok := its.cells[a]; ok {
+				ty := a.Type().(*types.Pointer).Elem()
+				n.vars[name] = Val{T: hv, S: vc.sortOf(ty), Ty: ty}
+			}
+		}
+		return n.c(x.Args[0])
 	case "has":
 		return boolVal(vc.resHas(env.st, arg(0).T, arg(1).T))
 	case "rv":
@@ -792,7 +825,7 @@ func (vc *VC) cardFun(ks string) string {
 }
 
 // localEnvVars adds the current values of named local cells to vars.
-func (vc *VC) localVars(st *State, vars map[string]Val, before ssa.Instruction) {
+func (vc *VC) localCells(st *State) map[string]*ssa.Alloc {
 	best := map[string]*ssa.Alloc{}
 	for a := range st.cells {
 		n := a.Comment
@@ -804,6 +837,11 @@ func (vc *VC) localVars(st *State, vars map[string]Val, before ssa.Instruction) 
 			best[n] = a
 		}
 	}
+	return best
+}
+
+func (vc *VC) localVars(st *State, vars map[string]Val, before ssa.Instruction) {
+	best := vc.localCells(st)
 	for n, a := range best {
 		ty := a.Type().(*types.Pointer).Elem()
 		vars[n] = Val{T: st.cells[a], S: vc.sortOf(ty), Ty: ty}
